@@ -62,9 +62,9 @@ CHECKS = {
    note="bounds: payload <=3 (quick)/6 bytes, <=2 frames, read sizes 1..3/5; CityHash128 is an uninterpreted function with a per-path no-collision assumption; LZ4/LZ4HC/ZSTD are an opaque codec pair (levels, real bit streams outside; the LZ4 model honours the library's destination-size contract: below CompressBlockBound an incompressible payload yields (0, nil)); method None is interpreted byte for byte"),
  "C08": dict(
    level="model_checking",
-   text="proto.Reader (bufio + io.ReadFull + binary.ReadUvarint) and compress.Reader are executed over a harness transport that returns the SAME symbolic stream in pieces - one byte per Read, two pieces at every offset, and all 2^(n-1) segmentations of the leading bytes - for every block shape of C01 and for two-frame compressed streams; the solver decides that values, row counts and bytes consumed equal the single-segment outcome, and that a cut stream still fails under each segmentation.",
+   text="proto.Reader (bufio + io.ReadFull + binary.ReadUvarint) and compress.Reader are executed over a harness transport that returns the SAME symbolic stream in pieces - one byte per Read, two pieces at every offset, and all 2^(n-1) segmentations of the leading bytes - for every block shape of C01, for Progress/Profile messages whose varints take 1..3 bytes behind one already-consumed byte of the same segment, and for two-frame compressed streams; the solver decides that values, row counts and bytes consumed equal the single-segment outcome, and that a cut stream still fails under each segmentation.",
    ref="DESIGN.md §4 C08",
-   note="bounds: rows<=1 (quick)/2, all segmentations of the first 5 (quick)/8 bytes, one-byte delivery and every two-piece split for the whole stream; the client-level part of the property (read timeouts between packets retried by Do's receive loop) is covered by the C03/C04 harness family when built, not here"),
+   note="bounds: rows<=1 (quick)/2, all segmentations of the first 5 (quick)/8 bytes, one-byte delivery and every two-piece split for the whole stream; message varints <= 3 bytes (16/21-bit fields); the client-level part of the property (read timeouts between packets retried by Do's receive loop) is covered by the C03/C04 harness family when built, not here"),
  "C02": dict(
    level="model_checking",
    text="The real Client.Do (sender, receiver and cancel-watch goroutines run as cooperative coroutines over errgroup/context models) is executed against a harness net.Conn with the negotiated revision symbolic (all revisions at once), all Query strings, settings (client and query level, flags), parameters, external data and input cells symbolic, compression disabled or enabled (method None framing, CityHash uninterpreted). The bytes recorded by the connection are asserted equal to the output of an independent reference encoder: one Query packet with the caller's fields in order, [external block] + empty block, then input block + empty block, each a Data packet with table name and exactly one checksummed frame iff compression is on; parameters are refused before 54459 with nothing written. Streamed input (OnInput, <=2 rounds; the C09 harness) is run under this property too: each round's block, as it was when the round began, in order, then one terminator.",
@@ -79,7 +79,7 @@ CHECKS = {
    level="model_checking",
    text="Client.Do is executed against scripts of up to 2 (quick)/3 (thorough) server packets drawn from {Data, Totals (0/1 rows or the empty end marker), Progress, Profile, TableColumns, Log, ProfileEvents, Exception (chain depth 1..3 quick / 1..4 thorough), EndOfStream} with all field values, cells and exception codes symbolic, with and without OnResult and with a failing callback at a chosen invocation. Assertions: the callback trace (results with the bound column's contents at callback time, progress, profile, logs, profile events) equals the projection of the script in order; Do returns nil iff the script ended with EndOfStream and no callback failed (incl. the no-OnResult single-block rule); an exception is recovered by errors.As with code/name/message/stack/chain and every code of the chain matches errors.Is.",
    ref="DESIGN.md §4 C03",
-   note="bounds: <=2/3 packets, one result column (UInt64), 1-row telemetry blocks, integer fields 7 bit, revisions {54460, 54453, 54419, 51902} in quick (one symbolic revision >= 50264 in thorough), compression off, instrumentation off; non-preemptive schedules only"),
+   note="bounds: <=2/3 packets, one result column (UInt64), 1-row telemetry blocks, integer fields 7 bit, revisions {54460, 54453, 54419, 51902} in quick (one symbolic revision >= 50264 in thorough), compression off, plus one run of the 2-packet scripts with connection compression enabled (Data/Totals in checksummed frames of method None, city.CH128 uninterpreted; telemetry blocks unframed), instrumentation off; non-preemptive schedules only"),
  "C12": dict(
    tech="bounded symbolic execution of the real go/ssa code (own engine gosym, paths decided by z3); on every symbolic path a happens-before (vector clock) relation over the modelled synchronisation operations is an implicit assertion: no two conflicting accesses of library code unordered; reported races are replayed natively under the Go race detector",
    level="model_checking",
